@@ -207,6 +207,20 @@ func genC04(o *out, r *Rng) {
 			o.e2eBoth(fmt.Sprintf("script S { %s }\nscript Next { n }", sw), Opts{Sw: defSw})
 		}
 	}
+	// commands the author wrote whose names look like jumps or terminators, as the last statement of a script / block: only
+	// 'return', 'end' and the unconditional 'goto' end a script, anything else is followed by the generated terminator
+	// (PROJ text compares with the model; the run-off scan of `closed` looks at the last instruction of every script)
+	o.dir("ORACLE", "closed")
+	tails := []string{"goto_if_set(FLAG_A, Other)", "goto_if_unset(FLAG_A, Other)", "goto_if_eq(VAR_X, 1, Other)", "call_if_set(FLAG_A, Other)", "gotonative(Func)", "goto_if(1, Other)", "returnqueststate", "endtrainerbattle", "ending",
+		"goto(Other)", "return", "end", "call(Other)", "gotoram", "returnram", "vgoto_if(1, Other)", "goto_if_defeated(TRAINER_A, Other)", "callstd(2)", "gotostd(2)", "switch_x(1)", "case_x(1, Other)"}
+	ctxs := []string{"script S { a %s }\nscript Other { o }", "script S { if (flag(A)) { a %s } }\nscript Other { o }", "script S { if (flag(A)) { a } else { %s } }\ntext Other { \"t\" }",
+		"script S { while (flag(A)) { b } %s }\nscript Other { o }", "script S { switch (var(V)) { case 1: a default: %s } }\nscript Other { o }", "script S { a L: %s }\nmovement Other { walk_up }",
+		"mapscripts M { MAP_SCRIPT_ON_LOAD { a %s } }\nscript Other { o }", "script S { do { %s } while (flag(A)) }\nscript Other { o }", "script S { %s }\nscript Other { o }"}
+	for _, c := range ctxs {
+		for _, tl := range tails {
+			o.e2eBoth(fmt.Sprintf(c, tl), Opts{Sw: defSw})
+		}
+	}
 }
 
 func genC05(o *out, r *Rng) {
@@ -489,6 +503,38 @@ func genC09(o *out, r *Rng) {
 	seeds(o, Opts{Sw: defSw})
 	contents := []string{"abc", "abc$", "abc\\0", "abc$$", "", "$", "\\0", "level 10", "Route 110", "100% sure %% %s", "a\\nb", "tab\\there", "ends with backslash 0 \\\\0", "ünï ♂", "dollar$ inside", "0", "x0"}
 	types := []string{"", "ascii", "braille", "custom", "string"}
+	// a type prefix is compared literally: ASCII / Braille ... are "other types" (no terminator added, directive as written)
+	for _, ty := range []string{"ASCII", "Ascii", "BRAILLE", "Braille", "aSCII", "String", "asciii", "brail"} {
+		for _, c := range []string{"abc", "abc$", "abc\\0", ""} {
+			l := ty + "\"" + c + "\""
+			for _, s := range []string{"script S { msgbox(" + l + ") }", "text T { " + l + " }", "text T { poryswitch(V) { A: " + l + " _: \"other\" } }", "text T { format(" + l + ") }",
+				"script S { msgbox(format(" + l + ", 40)) msgbox(" + strings.ToLower(ty) + "\"" + c + "\") }"} {
+				o.add(E2E(s, Opts{Opt: true, Sw: defSw}))
+			}
+		}
+	}
+	// inline strings as arguments of AutoVar commands at every operand position of a condition, in every construct that has a
+	// condition: each text is hoisted, referenced by its command and emitted once
+	avs := func(k int) string { return fmt.Sprintf("msgbox(\"ask %d\", MSGBOX_YESNO)", k) }
+	conds := []string{"%s", "%s == YES", "flag(A) && %s", "%s && flag(A)", "flag(A) || %s", "%s || flag(A)", "flag(A) && %s == 1 && flag(B)", "flag(A) && (flag(B) || %s)", "(%s) && (%s)", "!(%s == 1) && %s != 2",
+		"flag(A) && flag(B) && %s", "flag(A) || flag(B) || %s", "flag(A) && %s || flag(B) && %s", "var(V) == 2 && multichoice(0, 0, moves(walk_up), \"mc\") == 1"}
+	k := 0
+	for _, cd := range conds {
+		n := strings.Count(cd, "%s")
+		args := make([]interface{}, n)
+		for i := range args {
+			k++
+			args[i] = avs(k)
+		}
+		c := fmt.Sprintf(cd, args...)
+		for _, s := range []string{"script S { if (" + c + ") { a } }", "script S { if (flag(Z)) { z } elif (" + c + ") { a } else { b } }", "script S { while (" + c + ") { a } }", "script S { do { a } while (" + c + ") }",
+			"script S { do { msgbox(\"body\") } while (" + c + ") b }", "mapscripts M { MAP_SCRIPT_ON_LOAD { if (" + c + ") { a } } }"} {
+			o.e2eBoth(s, Opts{Sw: defSw})
+		}
+	}
+	for _, s := range []string{"script S { switch (msgbox(\"sw\", MSGBOX_YESNO)) { case 1: a } }", "script S { do { a } while (flag(A)) switch (multichoice(0, 0, \"x\")) { case 1: msgbox(\"in\") } }"} {
+		o.e2eBoth(s, Opts{Sw: defSw})
+	}
 	for _, c := range contents {
 		for _, ty := range types {
 			lit := ty + "\"" + c + "\""
@@ -705,6 +751,47 @@ func genC12(o *out, r *Rng) {
 	o.dir("PROJ", "text")
 	seeds(o, Opts{Sw: defSw})
 	metaCases(o, r, scale(1500, 30000), func(g *ProgGen) { g.UsePory = true; g.UseFormat = r.P(30) })
+	// conditions / switches on AutoVar commands that carry inline strings or moves(), inside selected and unselected cases: the
+	// inline data of an unselected case must not reach the output (nor shift the numbering of the selected one)
+	avc := []string{"if (msgbox(\"ask A\", MSGBOX_YESNO) == YES) { msgbox(\"in A\") }", "switch (multichoice(0, 0, \"mc\")) { case 1: msgbox(\"one\") }", "while (msgbox(format(\"again and again\")) == 1) { a }",
+		"do { a } while (multichoice(1, moves(walk_up * 2)) == 1)", "if (flag(F) && msgbox(\"second\") == 1) { b }", "msgbox(\"plain\")", "lock"}
+	for i := 0; i < scale(200, 4000); i++ {
+		a, b, c := avc[r.N(len(avc))], avc[r.N(len(avc))], avc[r.N(len(avc))]
+		forms := [][2]string{{"poryswitch(V) { A { %s } B { %s } _ { %s } }", "a"}, {"poryswitch(V) { B { %s } A { %s } _ { %s } }", "b"}, {"poryswitch(V) { B { %s } Q { %s } _ { %s } }", "c"}, {"poryswitch(W) { A { %s } B { %s } }", "b"},
+			{"poryswitch(V) { Q { %s } _ { %s } A { %s } }", "c"}}
+		f := forms[r.N(len(forms))]
+		sel := map[string]string{"a": a, "b": b, "c": c}[f[1]]
+		var ps string
+		if strings.Count(f[0], "%s") == 3 {
+			ps = fmt.Sprintf(f[0], a, b, c)
+		} else {
+			ps = fmt.Sprintf(f[0], a, b)
+		}
+		pre, post := "msgbox(\"before\")", "msgbox(\"after\") msgbox(\"plain\")"
+		if r.P(50) {
+			pre = "lock"
+		}
+		prog := "script S { " + pre + " " + ps + " " + post + " }\nscript T { msgbox(\"ask A\") }"
+		twin := "script S { " + pre + " " + sel + " " + post + " }\nscript T { msgbox(\"ask A\") }"
+		o.add(Case{"META", []string{"V=A,W=B", Hex(prog), Hex(twin)}})
+		o.add(E2E(prog, Opts{Opt: r.P(50), Sw: defSw}))
+	}
+	// list positions: the selected case exists but is empty ('A {}', 'A:' right before the closing brace, a nested poryswitch
+	// that yields nothing): nothing is contributed - the '_' case is NOT a fallback for an empty selected case
+	for _, pr := range [][2]string{
+		{"movement M { walk_up poryswitch(V) { A {} _ { walk_down } } face_left }", "movement M { walk_up face_left }"},
+		{"movement M { walk_up poryswitch(V) { _ { walk_down step_end } A {} } face_left }", "movement M { walk_up face_left }"},
+		{"movement M { poryswitch(V) { _: walk_down\n A: } walk_up }", "movement M { walk_up }"},
+		{"movement M { poryswitch(V) { A {} } walk_up }", "movement M { walk_up }"},
+		{"movement M { poryswitch(V) { A { poryswitch(W) { B {} _ { x } } } _ { walk_down } } walk_up }", "movement M { walk_up }"},
+		{"mart M { ITEM_A poryswitch(V) { A {} _ { ITEM_Z ITEM_NONE } } ITEM_B }", "mart M { ITEM_A ITEM_B }"},
+		{"mart M { poryswitch(V) { _ { ITEM_Z }\n A: } ITEM_B }", "mart M { ITEM_B }"},
+		{"script S { x(moves(walk_up poryswitch(V) { A {} _ { walk_down } } face_left)) }", "script S { x(moves(walk_up face_left)) }"},
+		{"script S { x(moves(poryswitch(V) { A {} })) }", "script S { x(moves()) }"},
+	} {
+		o.add(Case{"META", []string{"V=A,W=B", Hex(pr[0]), Hex(pr[1])}})
+		o.add(E2E(pr[0], Opts{Opt: true, Sw: defSw}))
+	}
 	// no matching case and no default: must fail (normal mode)
 	for _, s := range []string{"script S { poryswitch(V) { Q: a } }", "text T { poryswitch(V) { Q: \"a\" } }", "movement M { poryswitch(V) { Q: walk_up } }", "mart M { poryswitch(V) { Q: I } }", "script S { foo(moves(poryswitch(V) { Q: walk_up })) }", "script S { poryswitch(NOSUCH) { _: a } }", "script S { poryswitch(NOSUCH) { A: a } }"} {
 		o.add(E2E(s, Opts{Opt: true, Sw: defSw}))
@@ -787,6 +874,13 @@ func genC14(o *out, r *Rng) {
 		t, x := collidingMoves(r)
 		o.add(x)
 		o.add(E2E(t.Canon(), Opts{Opt: true, Sw: defSw}))
+	}
+	// a poryswitch whose selected case is empty contributes nothing (the '_' case is not a fallback for it)
+	for _, s := range []string{"movement M { walk_up poryswitch(V) { A {} _ { walk_down } } face_left }", "movement M { walk_up poryswitch(V) { _ { walk_down step_end } A {} } face_left }",
+		"movement M { poryswitch(V) { _: walk_down\n A: } walk_up }", "movement M { poryswitch(V) { A {} } walk_up }", "movement M { poryswitch(V) { A {} } }", "movement M { poryswitch(V) { A { poryswitch(W) { B {} _ { x } } } _ { walk_down } } walk_up }",
+		"mart M { ITEM_A poryswitch(V) { A {} _ { ITEM_Z ITEM_NONE } } ITEM_B }", "mart M { poryswitch(V) { _ { ITEM_Z }\n A: } ITEM_B }", "mart M { poryswitch(V) { A {} } }",
+		"script S { x(moves(walk_up poryswitch(V) { A {} _ { walk_down } } face_left)) }", "script S { x(moves(poryswitch(V) { A {} })) y(moves(poryswitch(V) { _ { walk_down } A {} })) }"} {
+		o.add(E2E(s, Opts{Opt: true, Sw: defSw}))
 	}
 	steps := []string{"walk_up", "walk_down", "step_end", "face_left", "jump"}
 	for i := 0; i < scale(1500, 30000); i++ {
@@ -963,6 +1057,8 @@ func genC16(o *out, r *Rng) {
 		{"script S {\n  cmd(1,\n 2 +\n 3,\n \"text\n over lines\")\n  other(moves(walk_up\n walk_down *\n 2))\n}", "2\t\tcmd 1, 2 + 3,\n7\t\tother \n7\t\twalk_up\n8\t\twalk_down\n5\t\t.string"},
 		{"script S {\n  switch (random(\n 4)) {\n case 0: a\n }\n  if (checkitem(I,\n 2) ==\n 1) {\n b\n }\n}", "4\t\tcase 0,\n4\t\ta\n9\t\tb"},
 		{"mapscripts M {\n  MAP_SCRIPT_ON_FRAME_TABLE [\n    VAR_A +\n 1, 2 +\n 3 {\n a\n }\n    VAR_B,\n 1: Lbl\n  ]\n}", "2\t\tmap_script MAP_SCRIPT_ON_FRAME_TABLE,\n3\t\tmap_script_2 VAR_A + 1, 2 + 3,\n8\t\tmap_script_2 VAR_B, 1, Lbl\n6\t\ta"},
+		{"script S {\n  msgbox(format(\n \"Hello world\"\n ,\n 100\n ))\n  tail\n}\ntext T {\n format(\n \"abc def\"\n , 40\n )\n}", "2\t\tmsgbox S_Text_0\n7\t\ttail\n3\t\t.string \"Hello\n9\t\t.string \"abc"},
+		{"script S {\n  msgbox(\n ascii\"typed\"\n )\n  foo(format(\"a b\",\n numLines=1\n ), moves(\n walk_up\n ))\n}", "2\t\tmsgbox S_Text_0\n5\t\tfoo S_Text_1\n8\t\twalk_up\n3\t\t.ascii \"typed\n5\t\t.string \"a b"},
 		{"movement M {\n walk_up *\n 3\n walk_down\n}\nmart Shop {\n ITEM_A\n ITEM_B\n}\ntext T {\n \"a\\n\"\n \"b\"\n}", "2\t\twalk_up\n4\t\twalk_down\n7\t\t.2byte ITEM_A\n8\t\t.2byte ITEM_B"},
 	} {
 		for _, opt := range []bool{false, true} {
@@ -1080,6 +1176,41 @@ func genC17(o *out, r *Rng) {
 	}
 	// independence of surrounding statements: X alone vs. X among unrelated statements (no inline text: numbering would differ)
 	o.dir("ORACLE", "hist,embed")
+	// format() with one font among statements formatted with another font: the two fonts of the repository's font config give
+	// different widths to the same control codes and characters; each text is laid out with the table of its own font
+	codes := []string{"{UP_ARROW}", "{DOWN_ARROW}", "{POKEBLOCK}", "{SUPER_E}", "{PLAYER}", "{LEFT_ARROW}{RIGHT_ARROW}"}
+	for i := 0; i < scale(60, 1200); i++ {
+		words := func() string {
+			var w []string
+			for k := 2 + r.N(6); k > 0; k-- {
+				if r.P(50) {
+					w = append(w, strings.Repeat(codes[r.N(len(codes))], 1+r.N(3)))
+				} else {
+					w = append(w, []string{"aa", "Hi", "ok", "iii", "WWW", "a"}[r.N(6)])
+				}
+			}
+			return strings.Join(w, " ")
+		}
+		fa, fb := "1_latin_rse", "1_latin_frlg"
+		if r.P(50) {
+			fa, fb = fb, fa
+		}
+		mw := 30 + r.N(60)
+		tx := words()
+		x := fmt.Sprintf("text XGreeting { format(\"%s\", \"%s\", %d) }\n", tx, fa, mw)
+		before := fmt.Sprintf("text Other { format(\"%s\", \"%s\", %d) }\n", tx, fb, mw)
+		if r.P(50) {
+			before += fmt.Sprintf("text Third { format(\"%s\", \"%s\", %d) }\n", words(), fb, mw)
+		}
+		after := ""
+		if r.P(50) {
+			after = fmt.Sprintf("text Last { format(\"%s\", \"%s\") }\n", words(), fb)
+		}
+		o.dir("EMBED", Hex(x), Hex(before), Hex(after))
+		o.add(E2E(x, Opts{Opt: true, Sw: defSw}))
+		o.add(E2E(before+after, Opts{Opt: true, Sw: defSw}))
+		o.add(E2E(before+x+after, Opts{Opt: true, Sw: defSw}))
+	}
 	for i := 0; i < scale(150, 3000); i++ {
 		g := NewProgGen(r)
 		g.TextPool = nil
